@@ -27,6 +27,7 @@ def run(ck, ctx):
     visited = set()
     frs = [("table", dict(label="constraints", constraints=True, set_null=False)), ("sequence", {})]
     frs += [("clauses", dict(group=g)) for g in GROUPS]
+    frs += [("types", {})]
     try:
         import importlib
         importlib.import_module("sdpverif.specs.alter")
